@@ -89,6 +89,7 @@ ALPHABET = [
     ("delete_stimuli", "all", None), ("delete_stimuli", "b0", None), ("delete_clamps", "all", None), ("delete_clamps", "all", "v"),
     ("make_trainable", "b0", "radius"), ("make_trainable", "all", "Leak_gLeak"), ("delete_trainables", "all", None), ("delete_trainables", "b0", None),
     ("init_states", "all", None),
+    ("set_ncomp", "b0", 1), ("set_ncomp", "b0", 3), ("add_to_group", "b2c1", "g2"), ("add_to_group", "all", "g3"),
 ]
 UNDO = [
     (("insert", "b0", "K"), ("delete_channel", "b0", "K")),
@@ -102,8 +103,11 @@ UNDO = [
 ]
 
 
-def run_history(m, kind, hist):
+def run_history(m, kind, hist, log=None):
     for op in hist:
+        if log is not None and op[0] == "add_to_group":
+            V = view(m, kind, op[1])
+            log.setdefault(op[2], set()).update((int(c), int(b)) for c, b in zip(V.nodes["global_cell_index"], V.nodes["global_branch_index"]))
         apply(m, kind, op)
 
 
@@ -233,8 +237,9 @@ def run_instance(inst):
         res["violations"].append({"signature": dict({"clause": clause, "ops": "+".join(o[0] + (":" + str(o[2]) if o[2] else "") for o in hist)}, **(extra or {})),
                                   "what": f"{kind} history {hist}: {what}", "replay": {"inst": inst, "clause": clause}})
     m = base_module(kind)
+    glog = {}
     try:
-        run_history(m, kind, hist)
+        run_history(m, kind, hist, glog)
     except Exception as ex:
         res["counters"]["history_refused"] = 1
         res["stats"] = dict(smt.STATS)
@@ -242,6 +247,13 @@ def run_instance(inst):
     res["counters"]["history_accepted"] = 1
     # ---------------- TABLE
     probs = table_problems(m)
+    # groups must still denote the branches they were given (oracle: the harness's own log of add_to_group calls)
+    for g, want in glog.items():
+        rows = np.asarray(m.groups.get(g, []), dtype=int)
+        if len(rows) and rows.max() < len(m.nodes) and rows.min() >= 0:
+            have = set((int(c), int(b)) for c, b in zip(m.nodes.loc[rows, "global_cell_index"], m.nodes.loc[rows, "global_branch_index"]))
+            if have != want:
+                probs.append(f"group {g} denotes (cell, branch) {sorted(have)} but was given {sorted(want)}")
     if probs:
         viol("TABLE", f"inconsistent tables: {probs[:3]}")
     # make the module simulable: a recording is itself an accepted operation
@@ -327,7 +339,7 @@ def families():
         hs += [[a, b] for a in ops for b in ops if a != b]
         if quick:
             # quick: all singletons + every ordered pair whose first op creates something (insert/stimulate/clamp/record/make_trainable/set)
-            hs = [h for h in hs if len(h) == 1 or h[0][0] in ("insert", "stimulate", "clamp", "record", "make_trainable")]
+            hs = [h for h in hs if len(h) == 1 or h[0][0] in ("insert", "stimulate", "clamp", "record", "make_trainable", "add_to_group")]
             if kind == "network":
                 hs = hs[::3]
         else:
